@@ -151,8 +151,21 @@ def run_R(chk, prop, tier):
 def gen_races(rng, n):
     out = []
     for i in range(n):
-        kind = rng.choice(["detach", "detach", "reattach", "contend", "contend3"])
+        kind = rng.choice(["hammer", "hammer", "hammer", "detach", "reattach", "contend", "contend3"])
         napp = rng.randint(2, 4)
+        if kind == "hammer":
+            # appenders never pause and (schedule perturbation at the hook between lookup and append) spend most
+            # of their time between looking the sink up and appending to it, while the handle is dropped
+            n_e = rng.randint(15, 30)
+            max_us = rng.choice([200, 500, 1000])
+            busy = n_e * max_us // 2
+            ctls = [{"sink": 1, "delay_us": 0, "hold_us": rng.randint(busy // 8, busy // 2)}]
+            if rng.random() < 0.5:
+                ctls.append({"sink": 2, "delay_us": ctls[0]["hold_us"] + rng.randint(0, busy // 4), "hold_us": rng.randint(busy // 8, busy // 3)})
+            out.append({"id": i + 1, "kind": kind, "appenders": napp, "n": n_e, "pace_us": 0, "ctls": ctls,
+                        "permille": 1000, "max_us": max_us, "flush_us": rng.choice([50, 1000, 20000]),
+                        "slow_us": rng.choice([0, 0, 20]), "seed": rng.randrange(1 << 30)})
+            continue
         if kind == "detach":
             ctls = [{"sink": 1, "delay_us": rng.choice([0, 50, 200]), "hold_us": rng.choice([100, 300, 1000])}]
         elif kind == "reattach":
